@@ -7,7 +7,9 @@ require (
 	github.com/anyproto/any-sync v0.0.0
 	github.com/anyproto/go-chash v0.1.0
 	github.com/cespare/xxhash v1.1.0
+	github.com/cheggaaa/mb/v3 v3.0.3
 	go.uber.org/zap v1.28.0
+	google.golang.org/protobuf v1.36.11
 	storj.io/drpc v1.0.0
 )
 
@@ -20,7 +22,6 @@ require (
 	github.com/anyproto/lexid v0.0.6 // indirect
 	github.com/beorn7/perks v1.0.1 // indirect
 	github.com/cespare/xxhash/v2 v2.3.0 // indirect
-	github.com/cheggaaa/mb/v3 v3.0.3 // indirect
 	github.com/davecgh/go-spew v1.1.1 // indirect
 	github.com/davidlazar/go-crypto v0.0.0-20200604182044-b73af7476f6c // indirect
 	github.com/decred/dcrd/dcrec/secp256k1/v4 v4.4.1 // indirect
@@ -71,7 +72,6 @@ require (
 	golang.org/x/text v0.40.0 // indirect
 	golang.org/x/time v0.15.0 // indirect
 	golang.org/x/tools v0.48.0 // indirect
-	google.golang.org/protobuf v1.36.11 // indirect
 	gopkg.in/yaml.v3 v3.0.1 // indirect
 	lukechampine.com/blake3 v1.4.1 // indirect
 	modernc.org/libc v1.66.8 // indirect
